@@ -235,7 +235,10 @@ func (self *Core) runInstruction(instruction compiler.Instruction) *value.VmInte
 			fmt.Printf("Memory write access `%v` at %x\n", *v, abs)
 		}
 
-		self.Memory[abs] = v
+		// A variable owns its cell: binding the cell of another variable or of a list element
+		// (`let e = l[0]`) would make the two names aliases of one scalar.
+		owned := *v
+		self.Memory[abs] = &owned
 	case compiler.Opcode_SetGlobImm:
 		i := instruction.(compiler.OneStringInstruction)
 		v := self.pop()
